@@ -813,6 +813,35 @@ def time_summaries():
             outs.append((s, Panic('overflow when subtracting durations') if neg else dur(a - b)))
         return outs
 
+    @reg(r'^(std::time::)?Duration::(saturating|checked)_(sub|add)$')
+    def d_sat(ex, st, fn, argv):
+        a, b = dv(ex, st, argv[0]), dv(ex, st, argv[1])
+        mode, opn = re.search(r'(saturating|checked)_(sub|add)$', fn).groups()
+        if opn == 'sub':
+            bad, r, sat = z3.ULT(a, b), a - b, z3.BitVecVal(0, 128)
+        else:
+            bad, r, sat = z3.UGT(a + b, z3.BitVecVal(DUR_MAX, 128)), a + b, z3.BitVecVal(DUR_MAX, 128)
+        if mode == 'saturating':
+            return [(st, dur(z3.If(bad, sat, r)))]
+        outs = []
+        for (s, c, bd) in ex.fork_on(st, bad, None):
+            outs.append((s, mk_option() if bd else mk_option(dur(r))))
+        return outs
+
+    @reg(r'^(std::time::)?Duration::(as_secs|as_millis|as_nanos)$')
+    def d_as(ex, st, fn, argv):
+        a = dv(ex, st, argv[0])
+        if fn.endswith('as_nanos'):
+            return [(st, Int(a, 128, False))]
+        div = 10 ** 9 if fn.endswith('as_secs') else 10 ** 6
+        q = z3.UDiv(a, z3.BitVecVal(div, 128))
+        return [(st, Int(z3.Extract(63, 0, q), 64, False) if fn.endswith('as_secs') else Int(q, 128, False))]
+
+    @reg(r'^(std::time::)?Instant::(duration_since|saturating_duration_since)$|^<(std::time::)?Instant as Sub>::sub$')
+    def i_since(ex, st, fn, argv):
+        a, b = deref(ex, st, argv[0]).fields[0].bv, deref(ex, st, argv[1]).fields[0].bv
+        return [(st, dur(z3.If(z3.ULT(a, b), z3.BitVecVal(0, 128), a - b)))]
+
     @reg(r'^<u32 as Mul<(std::time::)?Duration>>::mul$')
     def d_mul(ex, st, fn, argv):
         k, a = argv[0].bv, dv(ex, st, argv[1])
